@@ -220,6 +220,8 @@ const (
 	HowDirectiveOpp        // the same directive over a config whose four options are written to the opposite values
 	HowCopySet             // a config with the opposite options is built completely, copied with CopyConfig, and the options are set on the copy
 	HowExtendSet           // ... copied with NewConfig(ExtendConf(conf), Optimizations(...)) instead
+	HowExtendKeep          // all four options written into the map (as HowMapAll), the config then handed on through NewConfig(ExtendConf(conf)) - twice - with nothing set afterwards: what was switched off stays off
+	HowCopyKeep            // ... through CopyConfig(CopyConfig(conf))
 	howModes
 )
 
@@ -367,7 +369,7 @@ func NewConfig(u *Universe, log *Log, b Build) (*eval.Config, string) {
 		for i, o := range allOpts {
 			cc.CompileOptions[o] = b.Mask&(1<<i) == 0
 		}
-	case HowMapAll:
+	case HowMapAll, HowExtendKeep, HowCopyKeep:
 		for i, o := range allOpts {
 			cc.CompileOptions[o] = b.Mask&(1<<i) != 0
 		}
@@ -419,6 +421,10 @@ func NewConfig(u *Universe, log *Log, b Build) (*eval.Config, string) {
 		return cp, prefix
 	case HowExtendSet:
 		return eval.NewConfig(append([]eval.Option{eval.ExtendConf(cc)}, optionFns()...)...), prefix
+	case HowExtendKeep:
+		return eval.NewConfig(eval.ExtendConf(eval.NewConfig(eval.ExtendConf(cc)))), prefix
+	case HowCopyKeep:
+		return eval.CopyConfig(eval.CopyConfig(cc)), prefix
 	}
 	return cc, prefix
 }
